@@ -73,8 +73,9 @@ class NumEdit(Edit):
         Return true for allowed characters.
         """
         if len(ch) == 1:
-            if ch.upper() in self._allowed:
-                return True
+            if ch.isascii() and ch.upper() in self._allowed:
+                # nothing may be typed in front of the minus sign
+                return not (self.edit_pos == 0 and self.edit_text[:1] == "-")
 
             return self._allow_negative and ch == "-" and self.edit_pos == 0 and "-" not in self.edit_text
         return False
